@@ -3,7 +3,7 @@
 //
 //	new                              => ok
 //	md5 <hex>                        => <crypto/md5 digest>
-//	dg <secret hex> <ack|nak|def> <datagram hex>  => drop | act <coa|dm> <fields|-> <response hex> | panic … | hang
+//	dg <secret hex> <ack|nak|def|long> <datagram hex>  => drop | act <coa|dm> <fields|-> <response hex> | panic … | hang
 //	dgp <secret hex> <policy> <prime hex> <datagram hex>  => the same for the datagram, delivered immediately after <prime>
 package main
 
@@ -63,7 +63,7 @@ func (run) Do(op string) string {
 	case len(f) == 4 && f[0] == "dg":
 		sec, ok1 := unhex(f[1])
 		dg, ok2 := unhex(f[3])
-		if !ok1 || !ok2 || len(sec) == 0 || (f[2] != "ack" && f[2] != "nak" && f[2] != "def") {
+		if !ok1 || !ok2 || len(sec) == 0 || !okPolicy(f[2]) {
 			return "badop"
 		}
 		return driver(string(sec)).Send(f[2], dg)
@@ -71,13 +71,15 @@ func (run) Do(op string) string {
 		sec, ok1 := unhex(f[1])
 		prime, ok2 := unhex(f[3])
 		dg, ok3 := unhex(f[4])
-		if !ok1 || !ok2 || !ok3 || len(sec) == 0 || (f[2] != "ack" && f[2] != "nak" && f[2] != "def") {
+		if !ok1 || !ok2 || !ok3 || len(sec) == 0 || !okPolicy(f[2]) {
 			return "badop"
 		}
 		return driver(string(sec)).SendPrimed(f[2], prime, dg)
 	}
 	return "badop"
 }
+
+func okPolicy(p string) bool { return p == "ack" || p == "nak" || p == "def" || p == "long" }
 
 func hexs(b []byte) string {
 	if len(b) == 0 {
@@ -153,6 +155,10 @@ func (comp) Gen(r *rand.Rand, tier string, emit func([]string)) {
 				seq = append(seq, dgop(sec, policies[(ai+si)%3], cat(p, []byte{1, 2, 3})))
 				// signed with another secret
 				seq = append(seq, dgop(secrets[(si+1)%3], "ack", p))
+				// the handler answers with a 300-byte Reply-Message
+				if code == 40 || code == 43 {
+					seq = append(seq, dgop(sec, "long", p))
+				}
 				// zero authenticator / authenticator of the request without secret
 				z := append([]byte(nil), p...)
 				copy(z[4:20], make([]byte, 16))
